@@ -494,8 +494,8 @@ func runC18(tier string, _ []string) int {
 				switch r.Intn(3) {
 				case 0:
 					a0, n := r.Intn(0xfff0), 1+r.Intn(4)
-					if len(addrs) > 0 && r.Chance(0.5) {
-						a0 = addrs[r.Intn(len(addrs))] + 1 // next to / overlapping existing ones
+					if len(addrs) > 0 && r.Chance(0.6) {
+						a0 = addrs[r.Intn(len(addrs))] + r.Intn(2) // on top of / next to existing ones (registering a register again leaves it as it is)
 					}
 					if a0+n > 0x10000 {
 						a0 = 0x10000 - n // AddReg takes an int and truncates it to 16 bits: stay inside the address space
@@ -509,6 +509,9 @@ func runC18(tier string, _ []string) int {
 					}
 				case 1:
 					coil := r.Intn(0xffff)
+					if len(addrs) > 0 && r.Chance(0.5) {
+						coil = addrs[r.Intn(len(addrs))]*16 + r.Intn(16) // a second coil in a register that exists
+					}
 					regs.AddCoil(coil)
 					if _, ok := model.regs[uint16(coil/16)]; !ok {
 						model.regs[uint16(coil/16)] = 0
